@@ -10,11 +10,17 @@
 //!      CBOR gets a `redacted_assertions` entry, the target assertion box is deleted from the store, the claim is re-signed;
 //!  (3) post-hoc deletion: every assertion box of every manifest of A<-B stores deleted without a redaction entry
 //!      (with and without a legitimate redaction of another assertion in the same manifest); the store must still parse.
+//!  (4) repeated labels: an ingredient with 3 instances of one user label (label, label__1, label__2), one distinct label and, if accepted,
+//!      2 instances of a c2pa-namespaced label; every subset of the instances redacted by B (embedded and detached); for every redaction set
+//!      every non-redacted assertion box of the ingredient and of B deleted without a redaction entry, and the payload of every non-redacted
+//!      instance altered in place.
 //! Oracle (property text): after a successful redacting sign the output bytes contain none of the redacted assertions'
 //! marker payloads, read back Valid/Trusted, the active manifest lists exactly the requested redactions, unrequested
 //! marker payloads are still there; every disallowed / undeclared case is a sign error or reads not Valid.
 //!
 //! Mutants caught (tools/mutant_run.sh I <diff> C20 quick):
+//!   /tmp/seed-C20/OUT/patch.diff (independently seeded: the redaction skip in verify_internal ignores the assertion instance) -> part (4),
+//!                                 keys undeclared-removal-valid ... sibling-instance-redacted=true / undeclared-modification-valid ...
 //!   /verif/mutants/C20-hash-redaction-allowed.diff   (verify_internal no longer rejects redacted c2pa.hash.* assertions)
 //!   /verif/mutants/C20-missing-assertion-ignored.diff (an assertion listed by the claim but absent from the store is ignored)
 //!   /verif/mutants/C20-redaction-not-applied.diff    (Claim::redact_assertion reports success without removing the assertion)
@@ -341,6 +347,49 @@ impl StoreTree {
             Err("assertion store is not a superbox".into())
         }
     }
+    /// Serialised bytes of one assertion superbox (None if absent).
+    fn assertion_bytes(&self, manifest: &str, assertion: &str) -> Option<Vec<u8>> {
+        if let JB::Super { children } = &self.root {
+            for m in children {
+                if jb_label(m).as_deref() != Some(manifest) {
+                    continue;
+                }
+                if let JB::Super { children: mc } = m {
+                    for b in mc {
+                        if jb_label(b).as_deref() == Some("c2pa.assertions") {
+                            if let JB::Super { children: ac } = b {
+                                for a in ac {
+                                    if jb_label(a).as_deref() == Some(assertion) {
+                                        let mut o = vec![];
+                                        jb_write(a, &mut o);
+                                        return Some(o);
+                                    }
+                                }
+                            }
+                        }
+                    }
+                }
+            }
+        }
+        None
+    }
+    /// XOR 0x01 into the last byte of the first occurrence of `needle` inside the content of one assertion (same length).
+    fn flip_in_assertion(&mut self, manifest: &str, assertion: &str, needle: &[u8]) -> Result<(), String> {
+        let m = jb_child_mut(&mut self.root, manifest).ok_or("manifest not found")?;
+        let st = jb_child_mut(m, "c2pa.assertions").ok_or("assertion store not found")?;
+        let a = jb_child_mut(st, assertion).ok_or("assertion not found")?;
+        if let JB::Super { children } = a {
+            for leaf in children.iter_mut().skip(1) {
+                if let JB::Leaf { data, .. } = leaf {
+                    if let Some(p) = data.windows(needle.len()).position(|w| w == needle) {
+                        data[p + needle.len() - 1] ^= 0x01;
+                        return Ok(());
+                    }
+                }
+            }
+        }
+        Err("payload marker not found in the assertion content".into())
+    }
     /// content of the single content box of manifest/<boxlabel> (claim or signature)
     fn content_mut(&mut self, manifest: &str, prefix: &str) -> Result<&mut Vec<u8>, String> {
         let m = jb_child_mut(&mut self.root, manifest).ok_or("manifest not found")?;
@@ -441,7 +490,9 @@ pub fn run(run: &Run, replay: Option<&Value>) {
          for every S1,S2 and every S3 of assertions still present in both copies. (2) disallowed targets {A's actions, A's hard binding, own assertion, unresolvable} x every \
          subset of allowed targets through the Builder, and the same plus an allowed control crafted at byte level (claim edited + re-signed, box deleted). \
          (3) deletion of every assertion box of A and of B in A<-B stores, without and with a legitimate redaction of another assertion. \
-         non-trivial = cases with at least one redaction, disallowed target or deleted box.",
+         (4) the same with REPEATED assertion labels in the ingredient: every subset of {1 distinct, 3 x org.verif.rep, 2 x c2pa-namespaced} instances redacted (embedded + detached), \
+         and for every redaction set deletion of every non-redacted assertion box of both manifests and an in-place payload change of every non-redacted instance. \
+         non-trivial = cases with at least one redaction, disallowed target, deleted box or altered payload.",
     );
     run.assume("signing errors of the Builder are outcomes, not violations (the property speaks about outputs); at least the linear-chain cases must sign, else machinery failure");
     run.assume("in the diamond only the redactions requested by the signing manifest C are required to be absent from the output; payloads redacted by only one of B1/B2 may legitimately survive in the other copy (recorded as outcome). When C merges the two copies of A it removes such one-sided assertions from the other copy itself, so C's list may additionally contain URIs from S1 xor S2 (and nothing else)");
@@ -823,4 +874,208 @@ pub fn run(run: &Run, replay: Option<&Value>) {
             );
         }
     });
+
+    // ---------------- (4) REPEATED LABELS: several instances of one label in the ingredient ---------------------------------
+    repeated_labels(run, &jpeg, &skip);
+}
+
+/// Marker payload of instance i of the repeated-label ingredient "R".
+fn rmarker(i: usize) -> String {
+    format!("VERIF-RMARK-{i}-5be2d07a")
+}
+
+/// Ingredient R carries: one distinct-label assertion, three instances of `org.verif.rep`, and (if the Builder and the validator accept
+/// them) two instances of a c2pa-namespaced label. Every subset of these instances is redacted by a manifest B (embedded and detached);
+/// for every redaction set every NON-redacted assertion box of R and of B is deleted without a redaction entry, and the payload of
+/// every non-redacted marker instance is altered in place. None of these may read Valid/Trusted.
+fn repeated_labels(run: &Run, jpeg: &[u8], skip: &(dyn Fn(&Value) -> bool + Sync)) {
+    let own_label = "urn:c2pa:0f0e0d0c-0b0a-4009-8807-0605040302aa";
+    let def_r = |c2pa_label: Option<&str>| -> (String, usize) {
+        let mut a = vec![json!({"label":"org.verif.rdistinct","data":{"marker": rmarker(0)}})];
+        for i in 1..=3 {
+            a.push(json!({"label":"org.verif.rep","data":{"marker": rmarker(i), "n": i}}));
+        }
+        let mut n = 4;
+        if let Some(l) = c2pa_label {
+            for i in 4..=5 {
+                a.push(json!({"label": l, "data": {"@context": {"exif": "http://ns.adobe.com/exif/1.0/"}, "exif:Make": rmarker(i)}}));
+            }
+            n = 6;
+        }
+        (json!({"title":"R","claim_generator_info":[{"name":"verif","version":"1"}],"assertions":a}).to_string(), n)
+    };
+    // probe: a repeated c2pa-namespaced label if the Builder allows one and the result validates
+    let mut chosen: Option<(Vec<u8>, usize, Option<&str>)> = None;
+    for cand in [Some("c2pa.metadata"), Some("cawg.metadata"), None] {
+        let (d, n) = def_r(cand);
+        if let Ok(Ok(out)) = sign_step(&d, &[], &[], jpeg, true) {
+            run.eval();
+            if let Ok(rb) = read_back(&out) {
+                if (rb.state == "Valid" || rb.state == "Trusted") && (0..n).all(|i| contains(&out, rmarker(i).as_bytes())) {
+                    chosen = Some((out, n, cand));
+                    break;
+                }
+            }
+        }
+    }
+    let Some((r_out, n, c2pa_label)) = chosen else { kit::ev::machinery("C20: cannot build the repeated-label ingredient") };
+    let r_label = read_back(&r_out).map(|r| r.active_label).unwrap_or_default();
+    // which box label carries which marker (instances are numbered by the SDK: label, label__1, label__2)
+    let r_store = par::guard(|| c2pa::jumbf_io::load_jumbf_from_memory(MIME, &r_out)).ok().and_then(|r| r.ok()).unwrap_or_else(|| kit::ev::machinery("C20: cannot extract the store of R"));
+    let r_tree = StoreTree::parse(&r_store).unwrap_or_else(|e| kit::ev::machinery(format!("C20: R store: {e}")));
+    let mut inst: Vec<String> = vec![];
+    for i in 0..n {
+        let l = r_tree
+            .assertions(&r_label)
+            .into_iter()
+            .find(|a| r_tree.assertion_bytes(&r_label, a).map(|b| contains(&b, rmarker(i).as_bytes())).unwrap_or(false))
+            .unwrap_or_else(|| kit::ev::machinery(format!("C20: marker {i} not found in any assertion box of R")));
+        inst.push(l);
+    }
+    let mut distinct = inst.clone();
+    distinct.sort();
+    distinct.dedup();
+    if distinct.len() != n || !inst.iter().any(|l| l.ends_with("__1")) {
+        kit::ev::machinery(format!("C20: repeated-label ingredient has unexpected assertion labels {inst:?}"));
+    }
+    run.sample(json!({"part":"repeated-labels","instances":inst,"c2pa_namespaced_repeated_label":c2pa_label}));
+    run.space("repeated labels: every subset of the redactable instances (1 distinct + 3 x org.verif.rep [+ 2 x c2pa-namespaced]) redacted by B, embedded and detached", 2 * (1u64 << n), true);
+    let del_count = std::sync::atomic::AtomicU64::new(0);
+    let flip_count = std::sync::atomic::AtomicU64::new(0);
+    par::for_each_index(1u64 << n, |mask| {
+        let mask = mask as u32;
+        let red_idx = subset(mask, n);
+        let red: Vec<String> = red_idx.iter().map(|i| uri(&r_label, &inst[*i])).collect();
+        let want: BTreeSet<String> = red.iter().cloned().collect();
+        // ---- embedded A<-B ------------------------------------------------------------------------------------
+        let case = json!({"part":"rep-chain2","mask":mask});
+        if !skip(&case) {
+            run.eval();
+            run.nontrivial(format!("rep-chain2/{mask}"));
+            match sign_step(&definition("B", 3, None), &red, &[], &r_out, false) {
+                Err(p) => run.violation("panic part=rep-chain2".to_string(), format!("Builder::sign panicked: {p}"), case.clone()),
+                Ok(Err(e)) => run.outcome(format!("rep-chain2:sign-error:{}", sdk::err_kind(&e))),
+                Ok(Ok(out)) => match read_back(&out) {
+                    Err(e) => run.violation(format!("unreadable-after-redaction shape=rep-chain2 result={}", e.split(' ').next().unwrap_or("")), e, case.clone()),
+                    Ok(rb) => {
+                        run.outcome(format!("rep-chain2:{}", rb.state));
+                        for i in 0..n {
+                            let there = contains(&out, rmarker(i).as_bytes());
+                            let redacted = mask >> i & 1 == 1;
+                            if redacted && there {
+                                run.violation("redacted-data-present shape=rep-chain2 owner=R".to_string(), format!("payload of redacted instance {} still in the output", inst[i]), case.clone());
+                            }
+                            if !redacted && !there {
+                                run.violation("unrequested-removed shape=rep-chain2 owner=R".to_string(), format!("payload of instance {} disappeared although only {:?} were redacted", inst[i], red), case.clone());
+                            }
+                        }
+                        if rb.state != "Valid" && rb.state != "Trusted" {
+                            run.violation(format!("invalid-after-redaction shape=rep-chain2 codes={}", rb.failures.join(",")), format!("reads {} {:?}", rb.state, rb.failures), case.clone());
+                        }
+                        if rb.active_redactions != want {
+                            run.violation(
+                                format!("redactions-list-mismatch shape=rep-chain2 requested={} reported={}", want.len(), rb.active_redactions.len()),
+                                format!("requested {:?}, active manifest reports {:?}", want, rb.active_redactions),
+                                case.clone(),
+                            );
+                        }
+                    }
+                },
+            }
+        }
+        // ---- detached A<-B: base store, then deletions and payload flips ----------------------------------------
+        let (asset, store) = match sign_sidecar(&definition("B", 3, Some(own_label)), &red, &r_out, false) {
+            Ok(x) => x,
+            Err(e) => {
+                run.outcome(format!("rep-detached:sign-error:{}", e.split('(').next().unwrap_or("")));
+                return;
+            }
+        };
+        let base_case = json!({"part":"rep-detached-base","mask":mask});
+        let (st, f) = read_detached(&store, &asset);
+        if !skip(&base_case) {
+            run.eval();
+            run.outcome(format!("rep-detached-base:{st}"));
+            for i in red_idx.iter() {
+                if contains(&store, rmarker(*i).as_bytes()) {
+                    run.violation("redacted-data-present shape=rep-detached owner=R".to_string(), format!("payload of redacted instance {} still in the detached store", inst[*i]), base_case.clone());
+                }
+            }
+        }
+        if st != "Valid" && st != "Trusted" {
+            if !skip(&base_case) {
+                run.violation(format!("invalid-after-redaction shape=rep-detached codes={}", f.join(",")), format!("detached R<-B redacting {:?} reads {st} {f:?}", red), base_case);
+            }
+            return;
+        }
+        let Ok(tree) = StoreTree::parse(&store) else { kit::ev::machinery("C20: detached R<-B store does not parse independently") };
+        for m in tree.manifests() {
+            let who = if m == r_label { "R" } else { "B" };
+            for a in tree.assertions(&m) {
+                let case = json!({"part":"rep-delete","mask":mask,"manifest":who,"assertion":a});
+                if skip(&case) {
+                    continue;
+                }
+                run.eval();
+                del_count.fetch_add(1, std::sync::atomic::Ordering::Relaxed);
+                let mut t = StoreTree::parse(&store).unwrap();
+                if let Err(e) = t.delete_assertion(&m, &a) {
+                    kit::ev::machinery(format!("C20: deleting {who}/{a}: {e}"));
+                }
+                let bytes = t.bytes();
+                if !store_parses(&bytes) {
+                    run.outcome("rep-delete:store-does-not-parse");
+                    continue;
+                }
+                let (st, _) = read_detached(&bytes, &asset);
+                run.outcome(format!("rep-delete:{who}:{st}"));
+                if st == "Valid" || st == "Trusted" {
+                    let sibling = red_idx.iter().any(|i| base_label(&inst[*i]) == base_label(&a)) && who == "R";
+                    run.violation(
+                        format!("undeclared-removal-valid manifest={who} repeated-label={} sibling-instance-redacted={sibling}", inst.iter().filter(|l| base_label(l) == base_label(&a)).count() > 1),
+                        format!("assertion {a} of manifest {who} deleted without a redaction entry while {:?} are legitimately redacted: the store reads {st}", red),
+                        case,
+                    );
+                }
+            }
+        }
+        for i in 0..n {
+            if mask >> i & 1 == 1 {
+                continue;
+            }
+            let case = json!({"part":"rep-flip","mask":mask,"assertion":inst[i]});
+            if skip(&case) {
+                continue;
+            }
+            run.eval();
+            flip_count.fetch_add(1, std::sync::atomic::Ordering::Relaxed);
+            let mut t = StoreTree::parse(&store).unwrap();
+            if let Err(e) = t.flip_in_assertion(&r_label, &inst[i], rmarker(i).as_bytes()) {
+                kit::ev::machinery(format!("C20: altering payload of {}: {e}", inst[i]));
+            }
+            let bytes = t.bytes();
+            if !store_parses(&bytes) {
+                run.outcome("rep-flip:store-does-not-parse");
+                continue;
+            }
+            let (st, _) = read_detached(&bytes, &asset);
+            run.outcome(format!("rep-flip:{st}"));
+            if st == "Valid" || st == "Trusted" {
+                let sibling = red_idx.iter().any(|j| base_label(&inst[*j]) == base_label(&inst[i]));
+                run.violation(
+                    format!("undeclared-modification-valid manifest=R sibling-instance-redacted={sibling}"),
+                    format!("payload of non-redacted assertion {} altered in place while {:?} are legitimately redacted: the store reads {st}", inst[i], red),
+                    case,
+                );
+            }
+        }
+    });
+    run.nontrivial_n(del_count.load(std::sync::atomic::Ordering::Relaxed) + flip_count.load(std::sync::atomic::Ordering::Relaxed));
+    run.space("repeated labels: deletion of every non-redacted assertion box of R and of B, for every redaction set", del_count.load(std::sync::atomic::Ordering::Relaxed), true);
+    run.space("repeated labels: in-place payload alteration of every non-redacted marker instance, for every redaction set", flip_count.load(std::sync::atomic::Ordering::Relaxed), true);
+}
+
+/// label without the `__N` instance suffix
+fn base_label(l: &str) -> &str {
+    l.split("__").next().unwrap_or(l)
 }
